@@ -698,6 +698,18 @@ def c10(ctx):
             "alphabet": [0x61, 0x62, 0x63, 0xE9, 0x4E2D, 0x1F600], "enter_forms": ENTER_FORMS,
             "w": {"char": 30, "bs": 4, "left": 3, "right": 2, "up": 16, "down": 10, "tab": 1, "enter": 16, "word": 2, "space": 3}}
     scripts += sessions.gen_sessions(rng, 600 if q else 20000, prof, sid0=len(scripts) + 1)
+    # large histories holding many short distinct lines; old ones submitted again; the whole history walked
+    pool = [chr(c) for c in range(0x61, 0x7B)] + [chr(c) for c in range(0x430, 0x440)] + ["%d" % k for k in range(10, 60)]
+    for _ in range(40 if q else 600):
+        hcap = rng.choice([100, 128, 200, 256, 300])
+        lines = rng.sample(pool, rng.randint(30, 70))
+        items = []
+        for ln in lines:
+            items += [ln, "<enter>"]
+        for ln in rng.sample(lines, 6):
+            items += [ln, "<enter>"]
+        items += ["<up>"] * rng.randint(3, 75) + ["<down>"] * rng.randint(0, 10) + ["<enter>"]
+        scripts.append({"sid": len(scripts) + 1, "cfg": {"cmd": 16, "hcap": hcap, "set": "raw", "prompt": 0}, "steps": scen(items)})
     validate_cli(ctx, vh, scripts, "C10", "c10", shards=12)
     return ctx.finish("closed state graph of History for every buffer size in %s over a pool of 8 lines (multi-byte, empty, "
                       "never-fitting), every transition replayed on the real History; declarative retention law checked at "
@@ -1013,7 +1025,7 @@ def c02(ctx):
     # keys) through process_byte; every string handed out or echoed must be well-formed, octets that do not
     # complete a scalar change nothing and well-formed characters that follow are accepted
     prof = {"cmd": [1, 2, 3, 4, 5, 8, 16, 64], "hcap": [0, 3, 8, 16, 64], "sets": ALLSETS, "steps": (20, 120),
-            "alphabet": ALLCH, "enter_forms": ENTER_FORMS,
+            "alphabet": ALLCH, "enter_forms": ENTER_FORMS, "partial": [0, 0, 5],
             "w": {"rawbyte": 50, "char": 25, "bs": 5, "left": 5, "right": 3, "up": 6, "down": 3, "tab": 4, "enter": 8, "word": 5, "ctl": 3, "csi": 2}}
     scripts = sessions.gen_sessions(rng, 500 if ctx.tier == "quick" else 20000, prof)
     # bias raw bytes towards the interesting ones
@@ -1044,7 +1056,7 @@ BIG = {"CmdCap": 4, "HistCap": 6, "Chars": [97, 98, 32, 233], "NameSet": "tiny"}
 ENTER_FORMS = [[13], [13], [10], [13, 10], [10, 13]]
 SIZES_CMD = [0, 1, 2, 3, 4, 5, 8, 13, 16, 40, 64]
 SIZES_HIST = [0, 1, 2, 3, 5, 9, 16, 33, 64]
-ALLSETS = ["leds", "mixed", "raw", "grouped", "tiny", "wide"]
+ALLSETS = ["leds", "mixed", "raw", "grouped", "tiny", "wide", "grouped2"]
 
 
 def inject_faults(rng, scripts, share):
@@ -1097,7 +1109,7 @@ def cli_property(ctx, focus, mc_consts, mc_limit, profiles, rule, shards=12, ext
 def c01(ctx):
     q = ctx.tier == "quick"
     prof = {"cmd": SIZES_CMD, "hcap": SIZES_HIST, "sets": ALLSETS, "prompts": [0, 1, 2], "steps": (10, 70),
-            "alphabet": ALLCH + sessions.W1, "enter_forms": ENTER_FORMS, "hs_out": 0.3, "hs_prompt": 0.2,
+            "alphabet": ALLCH + sessions.W1, "enter_forms": ENTER_FORMS, "hs_out": 0.3, "hs_prompt": 0.2, "partial": [0, 0, 0, 3],
             "w": {"word": 12, "enter": 10, "quote": 4, "dash": 4, "space": 8}}
     prof["alphabet"] = prof["alphabet"] + [0x5B, 0x5B, 0x41, 0x42, 0x4F, 0x7E, 0x3B]
     tight = dict(prof, cmd=[0, 1, 2, 3], hcap=[0, 1, 2, 3], steps=(10, 40))
@@ -1124,7 +1136,7 @@ def c01(ctx):
 def c06(ctx):
     q = ctx.tier == "quick"
     prof = {"cmd": SIZES_CMD, "hcap": SIZES_HIST, "sets": ALLSETS, "prompts": [0, 1, 2, 3, 4, 5], "steps": (10, 70),
-            "alphabet": sessions.W1, "hs_out": 0.4, "hs_prompt": 0.3,
+            "alphabet": sessions.W1, "hs_out": 0.4, "hs_prompt": 0.3, "partial": [0, 0, 0, 3, 11],
             "w": {"word": 10, "enter": 6, "write": 6, "prompt": 5, "left": 14, "right": 8, "tab": 8, "up": 8, "down": 5}}
     tight = dict(prof, cmd=[0, 1, 2, 3, 4], hcap=[0, 2, 5], steps=(8, 40))
     return cli_property(ctx, "C06",
@@ -1194,7 +1206,7 @@ def c13(ctx):
     texts = ["x", "", "\n", "\r\n", "x\n", "x\r\n", "\nx", "x\ny", "x\n\ny", "\n\n", "xy\r\nz", "ж", "a b",
              "0123456789" * 3 + "\n", "0123456789" * 3 + "1\n", "0123456789" * 3 + "12\nz", "a" * 64 + "\n" + "b" * 33, "ж" * 16 + "\n"]
     prof = {"cmd": [0, 2, 5, 8, 16, 40], "hcap": [0, 5, 16], "sets": ALLSETS, "prompts": [0, 1, 2, 3], "steps": (8, 50),
-            "alphabet": sessions.W1, "hs_out": 0.9, "hs_prompt": 0.2, "texts": texts,
+            "alphabet": sessions.W1, "hs_out": 0.9, "hs_prompt": 0.2, "texts": texts, "partial": [0, 0, 0, 2],
             "w": {"word": 14, "enter": 14, "write": 12, "prompt": 2, "left": 10, "char": 25}}
     return cli_property(ctx, "C13",
                         [dict(SMALL, WithApi=True)] if q else [dict(MED, WithApi=True)],
@@ -1766,7 +1778,7 @@ def derive_requests(rng, tier, roots, by_id, help_lines=False):
     return reqs
 
 
-ROOTS = ["plain", "args", "types", "top", "names", "grp", "grp2", "grp3", "grp4", "leaf", "empty"]
+ROOTS = ["plain", "args", "types", "top", "names", "grp", "grp2", "grp3", "grp4", "grp5", "leaf", "empty"]
 
 
 def regenerate_catalogue(ctx):
@@ -1938,6 +1950,7 @@ def c03(ctx):
     prof = {"cmd": list(range(0, 9)) + [13, 16, 31, 32, 33, 63, 64], "hcap": list(range(0, 9)) + [13, 16, 31, 32, 33, 63, 64],
             "sets": ALLSETS, "prompts": [0, 1, 2, 3, 4, 5], "steps": (20, 160), "alphabet": ALLCH + sessions.W1,
             "enter_forms": ENTER_FORMS, "hs_out": 0.4, "hs_prompt": 0.2, "partial": [0, 0, 5],
+            "methods": ("w", "wl", "u", "f", "fc", "uc", "le", "ti"),
             "w": {"rawbyte": 60, "char": 20, "ctl": 6, "csi": 4, "word": 8, "write": 4, "prompt": 3, "tab": 8, "up": 8, "down": 5, "enter": 8}}
     rand = sessions.gen_sessions(rng, 1500 if q else 40000, prof, sid0=len(scripts) + 1)
     for i, x in enumerate(rand):
